@@ -71,7 +71,7 @@ SWEEP_RULE = ("exhaustive product of boundary classes per field (addresses: empt
 def sweep():
     return {"kind": "sweep", "profile": "", "n_quick": 1, "n_thorough": 1, "per_shard": 1}
 
-REPLICAS = [{"TZ": "UTC", "GOMAXPROCS": "1"}, {"TZ": "Europe/Warsaw", "GOMAXPROCS": "8"}, {"TZ": "America/St_Johns", "GOMAXPROCS": "3"}]
+REPLICAS = [{"TZ": "UTC", "GOMAXPROCS": "1"}, {"TZ": "Europe/Warsaw", "GOMAXPROCS": "8", "VERIF_QUERIES": "1"}, {"TZ": "America/St_Johns", "GOMAXPROCS": "3"}]
 
 PROPS = {
     "C01": {
@@ -305,7 +305,7 @@ PROPS = {
     "C09": {
         "title": "Custom messages can never replace or alter an existing account",
         "model": "Vest.v: step over all vesting messages; Sig.v: create_account (allowed-outcome set)",
-        "runs": [vest("", 120, 4000), vest("split", 60, 2000)],
+        "runs": [vest("", 120, 4000), vest("split", 60, 2000), sweep()],
         "preds": ["C09."],
         "rule": VEST_RULE + "; C09 compares the serialized x/auth record of every pre-existing tracked address before and after each message",
         "level_text": "Coq theorem for every world, every vesting-module message with any signer and payload and every existing address: the account "
